@@ -762,6 +762,25 @@ def check_split_run(case):
         if [a[2] for a in atoms] != want:
             viols.append(dict(assertion="split-keeps-atoms", tags=[], message=f"{sstr}: output atom names {[a[2] for a in atoms]}", case=case1, detail={}))
         keys.append("splitrun:" + "+".join(sstr) + (":c" if case.get("with_coords") else ""))
+        # -split together with -start: the start residue is named by what the residues are called after the split
+        if not case.get("with_coords") and len(combo) == 1 and combo[0][0] == "D":
+            s3 = json.loads(json.dumps(s2))
+            s3["kwargs"]["start"] = ["MIX3-T#3"]
+            evals += 1
+            res3 = G.run_gen_coords(s3, Chooser([]))
+            case3 = dict(kind="splitrun1", split=sstr, start="MIX3-T#3")
+            if res3["exc"] is not None:
+                viols.append(crash_violation(res3["exc"], case3, assertion="gen_coords-with-split-builds", tags=["split-with-start"]))
+            else:
+                nparts = len(combo[0][1])
+                firsts = {}
+                for e in res3["events"]:
+                    if e[0] == "add" and e[1] not in firsts:
+                        firsts[e[1]] = e[2]
+                want_first = 1 + nparts          # residues after the split: S, the pieces of D, T
+                if any(k != want_first for k in firsts.values()) and len(viols) < 20:
+                    viols.append(dict(assertion="start-selects-as-written", tags=["split-with-start"],
+                                      message=f"-split {sstr} -start MIX3-T#3: growth started at residue index {firsts} of the split molecules, T is residue index {want_first}", case=case3, detail={}))
     return viols, evals, keys
 
 
